@@ -184,6 +184,8 @@ func (c cfgOverride) BlockProposalMaxWaitTime() time.Duration { return time.Minu
 
 // ---------------------------------------------------------------- process-wide setup
 
+const timeTol = 600 // seconds
+
 const nClients = 6 // ids 5..5+nClients-1
 const (
 	idMinerSC = 0 // miner contract address (receives the fees); scripted
@@ -238,7 +240,7 @@ func setup() {
 		memorystore.AddPool("clientdb", memorystore.DefaultPool)
 		transaction.SetupEntity(memorystore.GetStorageProvider())
 		client.SetupEntity(memorystore.GetStorageProvider())
-		transaction.SetTxnTimeout(int64(10 * time.Minute))
+		transaction.SetTxnTimeout(timeTol) // TXN_TIME_TOLERANCE, seconds
 
 		// identities
 		ids[idMinerSC], ids[idScript], ids[idStorage], ids[idFaucet] = minersc.ADDRESS, scriptAddr, storagesc.ADDRESS, faucetsc.ADDRESS
@@ -302,6 +304,7 @@ type acctInit struct {
 type caseCfg struct {
 	cfgOverride
 	challenge bool
+	prevOff   int64 // creation date of the previous block, seconds relative to the clock at the start of the case
 	accts     []acctInit
 }
 
@@ -311,12 +314,12 @@ type side struct {
 }
 
 // buildPrev creates the previous block with the prior state on a fresh node DB.
-func buildPrev(c *chain.Chain, cc *caseCfg) (*block.Block, error) {
+func buildPrev(c *chain.Chain, cc *caseCfg, now common.Timestamp) (*block.Block, error) {
 	ndb := util.NewMemoryNodeDB()
 	mpt := util.NewMerklePatriciaTrie(ndb, util.Sequence(prevRound), nil, statecache.NewEmpty())
 	pb := block.NewBlock(c.ID, prevRound)
 	pb.Hash = encryption.Hash("verif-c45-prev")
-	pb.CreationDate = common.Now() - 5
+	pb.CreationDate = now + common.Timestamp(cc.prevOff) // the previous block may come from a miner whose clock is ahead
 	gtxn := &transaction.Transaction{}
 	gtxn.Hash = encryption.Hash("verif-c45-genesis-txn")
 	sctx := cstate.NewStateContext(pb, mpt, gtxn, nil, nil, nil, nil, nil, nil)
@@ -374,7 +377,7 @@ func newWorld(cc *caseCfg) (*world, error) {
 	for i, s := range []*side{&w.gen, &w.ver} {
 		s.mc = []*miner.Chain{genMC, verMC}[i]
 		s.mc.Chain.ChainConfig = cc.cfgOverride
-		pb, err := buildPrev(s.mc.Chain, cc)
+		pb, err := buildPrev(s.mc.Chain, cc, w.now)
 		if err != nil {
 			return nil, err
 		}
@@ -394,7 +397,7 @@ type poolTxn struct {
 	nonce  int64
 	fn     string
 	data   string // TransactionData
-	age    int64  // seconds before "now"
+	dateOff int64 // creation date, seconds relative to the clock at the start of the case
 }
 
 // addTxn signs the transaction with the sender's key and stores it with an explicit collection score: the pool's
@@ -410,9 +413,9 @@ func (w *world) addTxn(p poolTxn, rank int64) (*transaction.Transaction, string)
 	t.Nonce = p.nonce
 	t.TransactionType = p.typ
 	t.TransactionData = p.data
-	// one second apart: the transaction hash covers (creation date, nonce, sender, recipient, value, data) but not the
-	// fee, so two submissions that differ in nothing else would be one pool entry
-	t.CreationDate = w.now - common.Timestamp(p.age) - common.Timestamp(len(w.pool))
+	// (the hash covers creation date, nonce, sender, recipient, value, data — not the fee: the generator of cases keeps
+	// (sender, nonce, date) distinct, otherwise two submissions would be one pool entry)
+	t.CreationDate = w.now + common.Timestamp(p.dateOff)
 	t.ChainID = genMC.ID
 	if err := t.ComputeProperties(); err != nil {
 		// a contract transaction whose data is not JSON: stored as the client sent it
